@@ -147,7 +147,10 @@ public:
 
 	bool emptyQueue() const
 	{
-		return queueList.empty() && (queueEmptyCounter.load(std::memory_order_acquire) == 0);
+		// queueList and queueEmptyCounter must be read in one critical section of queueListMutex,
+		// see EventQueue::emptyQueue.
+		std::lock_guard<Mutex> queueListLock(queueListMutex);
+		return doEmptyQueue();
 	}
 
 	void clearEvents()
@@ -263,9 +266,16 @@ public:
 	using super::dispatch;
 
 private:
+	// queueListMutex must be held
+	bool doEmptyQueue() const
+	{
+		return queueList.empty() && (queueEmptyCounter.load(std::memory_order_acquire) == 0);
+	}
+
+	// queueListMutex must be held
 	bool doCanProcess() const
 	{
-		return ! emptyQueue() && doCanNotifyQueueAvailable();
+		return ! doEmptyQueue() && doCanNotifyQueueAvailable();
 	}
 
 	bool doCanNotifyQueueAvailable() const
@@ -394,7 +404,8 @@ private:
 			typename PrototypeInfo::ArgsTuple(std::forward<T>(first), std::forward<Args>(args)...)
 		));
 
-		if(doCanProcess()) {
+		// The event just enqueued is pending whatever emptyQueue() would say now.
+		if(doCanNotifyQueueAvailable()) {
 			queueListConditionVariable.notify_one();
 		}
 	}
@@ -417,7 +428,8 @@ private:
 			typename PrototypeInfo::ArgsTuple(std::forward<Args>(args)...)
 		));
 
-		if(doCanProcess()) {
+		// The event just enqueued is pending whatever emptyQueue() would say now.
+		if(doCanNotifyQueueAvailable()) {
 			queueListConditionVariable.notify_one();
 		}
 	}
